@@ -43,6 +43,12 @@ SHARED = "shared"                           # the service name both contexts com
 # BOUNDARY: entity / event names that are prefixes of each other (pyscript.a / pyscript.ab, ev1 / ev1x)
 ENTS = ["pyscript.a", "pyscript.b", "pyscript.c", "pyscript.ab"]
 EVS = ["ev1", "ev2", "ev1x"]
+# MQTT topics and webhook ids (again with a prefix pair).  Webhook ids: legacy multiplexes one Home Assistant registration
+# per id among all queues (Webhook.notify); in the NEW subsystem every @webhook_trigger registers itself and a second live
+# function naming a registered id fails to start as a whole (that is C08's open finding C08-F1, model: `hookClash`), so
+# the copies of a sequence that run under the new subsystem get one id per generation (`uniq_hooks`).
+TOPICS = ["t/1", "t/2", "t/1x"]
+HOOKS = ["h1", "h2", "h1x"]
 # where a reference to a function can live besides a global variable (op `put` / `drop`, field "kind"):
 # a dict, a default argument, a closure cell, a class attribute, a container of an imported module (another context)
 KINDS = ["dict", "default", "closure", "class", "module"]
@@ -73,6 +79,12 @@ def gen_define(rng, gen, dup):
             if not any(".".join(n.split(".")[:2]) in used for n in extra):
                 sets.append(extra)
     events = [rng.choice(EVS)] if rng.random() < 0.45 else []
+    mqtts = [rng.choice(TOPICS)] if rng.random() < 0.3 else []
+    if mqtts and rng.random() < 0.25:
+        mqtts.append(rng.choice(TOPICS))          # a second @mqtt_trigger, possibly on the same topic
+    hooks = [rng.choice(HOOKS)] if rng.random() < 0.3 else []
+    if hooks and rng.random() < 0.2:
+        hooks.append(rng.choice([h for h in HOOKS if h != hooks[0]]))
     services = [f"s{gen}"] if rng.random() < 0.35 else []
     su = rng.random() < 0.25
     sd = rng.random() < 0.25
@@ -80,6 +92,7 @@ def gen_define(rng, gen, dup):
     if r2 < 0.08:
         # a plain function without any decorator: nothing may ever be registered for it
         sets, events, services, su, sd = [], [], [], False, False
+        mqtts, hooks = [], []
     elif r2 < 0.18:
         # triggers of every modelled kind on one function (+ guards that always hold)
         a = list(rng.choice(DUP_SETS if dup else CLEAN_SETS))
@@ -87,13 +100,14 @@ def gen_define(rng, gen, dup):
         b = [e for e in ENTS if e not in used][:1]
         sets = [a] + ([b] if b else [])
         events, services, su, sd = [rng.choice(EVS)], [f"s{gen}"], True, True
-    elif not sets and not events and not services and not su and not sd:
+        mqtts, hooks = [rng.choice(TOPICS)], [rng.choice(HOOKS)]
+    elif not sets and not events and not services and not su and not sd and not mqtts and not hooks:
         events = [rng.choice(EVS)]
     d = {"op": "define", "name": rng.choice(NAMES), "gen": gen, "states": sets, "events": events,
-         "services": services, "su": su, "sd": sd}
+         "mqtts": mqtts, "hooks": hooks, "services": services, "su": su, "sd": sd}
     if r2 >= 0.08 and r2 < 0.18:
         d["guards"] = True
-    if rng.random() < 0.2 and (sets or events):
+    if rng.random() < 0.2 and (sets or events or mqtts or hooks):
         d["sleepy"] = True      # every run sleeps 0.1 s: it is still running while the next operations happen
     return d
 
@@ -223,9 +237,26 @@ def gen_case_jup(rng, legacy, hashseed):
     return {"family": "jup", "legacy": legacy, "hashseed": hashseed, "ops": ops}
 
 
-def D(name, gen, states=(), events=(), services=(), su=False, sd=False, file="t"):
+def D(name, gen, states=(), events=(), services=(), su=False, sd=False, file="t", mqtts=(), hooks=()):
     return {"op": "define", "file": file, "name": name, "gen": gen, "states": [list(s) for s in states],
-            "events": list(events), "services": list(services), "su": su, "sd": sd}
+            "events": list(events), "mqtts": list(mqtts), "hooks": list(hooks), "services": list(services),
+            "su": su, "sd": sd}
+
+
+def uniq_hooks(payload):
+    """new subsystem: one webhook id per generation (see HOOKS)"""
+    for o in payload["ops"]:
+        if o["op"] == "define" and o.get("hooks"):
+            o["hooks"] = [f"{h}g{o['gen']}" for h in o["hooks"]]
+    return payload
+
+
+def topics_of(payload):
+    return sorted({t for o in payload["ops"] if o["op"] == "define" for t in o.get("mqtts", [])})
+
+
+def hooks_of(payload):
+    return sorted({h for o in payload["ops"] if o["op"] == "define" for h in o.get("hooks", [])})
 
 
 def fixed_cases():
@@ -294,6 +325,16 @@ def fixed_cases():
         out.append({"family": "fixed", "legacy": legacy, "hashseed": 0, "ops": [
             D("f0", 0, [["pyscript.a"]], ["ev1x"], ["s0"], su=True, sd=True, file="s3"),
             {"op": "commentfile", "file": "s3"}, D("f0", 1, [["pyscript.a"]], file="t"), {"op": "unloadall"}]})
+        # MQTT topics and webhook ids: two functions (two files) on one topic and one id, a function with two
+        # @mqtt_trigger on one topic, first / last listener going in either order, reload, file delete, unload
+        out.append({"family": "fixed", "legacy": legacy, "hashseed": 0, "ops": [
+            D("f0", 0, mqtts=["t/1"], hooks=["h1"], file="t"), D("f0", 1, mqtts=["t/1", "t/1"], hooks=["h1", "h2"], file="u"),
+            D("f1", 2, [["pyscript.a"]], ["ev1"], ["s2"], mqtts=["t/1x"], hooks=["h1x"], su=True, sd=True, file="t"),
+            {"op": "del", "file": "t", "name": "f0"}, {"op": "put", "file": "u", "slot": 0, "name": "f0"},
+            {"op": "del", "file": "u", "name": "f0"}, D("f0", 3, mqtts=["t/1"], hooks=["h1"], file="t"),
+            {"op": "drop", "file": "u", "slot": 0}, {"op": "reloadfile", "file": "t"},
+            D("f2", 4, mqtts=["t/2", "t/1"], hooks=["h2"], file="u"), {"op": "deletefile", "file": "u"},
+            D("f0", 5, mqtts=["t/1"], hooks=["h1"], file="t"), {"op": "unloadall"}]})
         # a Jupyter session with every kind of declaration ends while pyscript keeps running
         for how in ("shutdown", "delete"):
             out.append({"family": "fixed", "legacy": legacy, "hashseed": 0, "ops": [
@@ -324,6 +365,8 @@ def gen_cases(rng, tier, search):
     cases = []
     if not search:
         for p in spread_hashseeds(fixed_cases()):
+            if not p["legacy"]:
+                uniq_hooks(p)
             cases.append(common.Case(p, None, tags=(p["family"], "legacy" if p["legacy"] else "new")))
     for i in range(n):
         family = ["clean", "dup", "svc", "jup"][i % 4]
@@ -336,6 +379,8 @@ def gen_cases(rng, tier, search):
         for legacy in (True, False):      # "both subsystems": every generated sequence runs under both
             p = json.loads(json.dumps(base))
             p["legacy"] = legacy
+            if not legacy:
+                uniq_hooks(p)
             cases.append(common.Case(p, None, tags=(family, "legacy" if legacy else "new")))
     return cases
 
@@ -354,6 +399,10 @@ def decl_lines(d, fname, ind):
         lines.append(f"{ind}@state_trigger(\"{expr}\")")
     for ev in d["events"]:
         lines.append(f"{ind}@event_trigger('{ev}')")
+    for tp in d.get("mqtts", []):
+        lines.append(f"{ind}@mqtt_trigger('{tp}')")
+    for hk in d.get("hooks", []):
+        lines.append(f"{ind}@webhook_trigger('{hk}')")
     for sv in d["services"]:
         lines.append(f"{ind}@service('pyscript.{sv}')")
     tt = [x for x, flag in (("startup", d["su"]), ("shutdown", d["sd"])) if flag]
@@ -364,9 +413,9 @@ def decl_lines(d, fname, ind):
         lines.append(f"{ind}@time_active(\"range(0:00:00, 23:59:58)\")")
     lines.append(f"{ind}def {fname}(**kw):")
     lines.append(f"{ind}    rec('run', {d['gen']}, kw.get('trigger_type'), kw.get('trigger_time'), "
-                 "kw.get('var_name'), kw.get('event_type'), kw.get('probe'))")
+                 "kw.get('var_name'), kw.get('event_type'), kw.get('probe'), kw.get('topic'), kw.get('webhook_id'))")
     if d.get("sleepy"):
-        lines.append(f"{ind}    if kw.get('trigger_type') in ('state', 'event'):")
+        lines.append(f"{ind}    if kw.get('trigger_type') in ('state', 'event', 'mqtt', 'webhook'):")
         lines.append(f"{ind}        task.sleep(0.1)")
         lines.append(f"{ind}        rec('done', {d['gen']})")
     return lines
@@ -486,8 +535,22 @@ def _run_one(payload):
     from custom_components.pyscript.state import State
     from custom_components.pyscript.event import Event
     from custom_components.pyscript.function import Function
+    from custom_components.pyscript.mqtt import Mqtt
+    from custom_components.pyscript.webhook import Webhook
+    from unittest.mock import patch
     obs = []
     svcs = svc_names(payload)
+    topics, hooks = topics_of(payload), hooks_of(payload)
+    subs = []          # live subscriptions pyscript holds through mqtt.async_subscribe: [topic, handler]
+
+    async def fake_subscribe(hass, topic, handler, encoding="utf-8", qos=0):
+        ent = [topic, handler]
+        subs.append(ent)
+
+        def rm():
+            if ent in subs:
+                subs.remove(ent)
+        return rm
 
     async def body(env):
         hass = env.hass
@@ -524,7 +587,7 @@ def _run_one(payload):
         def drain():
             """forget the records seen so far, but keep count of started and finished runs of sleeping functions"""
             for r in env.records:
-                if r[1] == "run" and r[3] in ("state", "event"):
+                if r[1] == "run" and r[3] in ("state", "event", "mqtt", "webhook"):
                     starts[r[2]] = starts.get(r[2], 0) + 1
                 elif r[1] == "done":
                     dones[r[2]] = dones.get(r[2], 0) + 1
@@ -632,6 +695,14 @@ def _run_one(payload):
             ev = {ty: len(qs) for ty, qs in Event.notify.items() if len(qs)}
             lis = hass.bus.async_listeners()
             bus = {ty: lis.get(ty, 0) for ty in EVS if lis.get(ty, 0)}
+            # MQTT / webhook: pyscript's notify tables and what Home Assistant holds for pyscript
+            mq = {t: len(qs) for t, qs in Mqtt.notify.items() if len(qs)}
+            mqs = {}
+            for t, _h in subs:
+                mqs[t] = mqs.get(t, 0) + 1
+            wh = {h: len(qs) for h, qs in Webhook.notify.items() if len(qs)}
+            whs = {h: 1 for h in hass.data.get("webhook", {}) if h in hooks}
+            stray = sorted(set(Mqtt.notify_remove) - set(Mqtt.notify)) + sorted(set(Webhook.notify_remove) - set(Webhook.notify))
             # services: what Home Assistant has, and pyscript's own bookkeeping (count, owning global context)
             svc = sorted(n for n in svcs if hass.services.has_service(*n.split(".", 1)))
             cnt = {n: Function.service_cnt.get(n, 0) for n in svcs if Function.service_cnt.get(n, 0)}
@@ -646,11 +717,30 @@ def _run_one(payload):
                     hass.states.async_set(e, str(counter[0]), {"attr1": counter[0]})
                 for ty in EVS:
                     hass.bus.async_fire(ty, {"x": 1})
+                if topics or hooks:
+                    from homeassistant.components import webhook as ha_webhook
+                    from homeassistant.components.mqtt import ReceiveMessage
+                    from homeassistant.core import HassJob
+                    from homeassistant.util.aiohttp import MockRequest
+                    import datetime
+                    for tp in topics:
+                        msg = ReceiveMessage(tp, "1", 0, False, tp, datetime.datetime.now())
+                        for t, h in list(subs):
+                            if t == tp:
+                                hass.async_run_hass_job(HassJob(h), msg)
+                    for hk in hooks:
+                        if hk in hass.data.get("webhook", {}):
+                            req = MockRequest(b'{"x": 1}', "test", method="POST", headers={"Content-Type": "application/json"})
+                            hass.async_create_task(ha_webhook.async_handle_webhook(hass, hk, req))
                 await env.settle(0.01)
                 for e in ENTS:
                     runs[e] = sorted(r[2] for r in env.records if r[1] == "run" and r[3] == "state" and r[5] == e)
                 for ty in EVS:
                     runs[ty] = sorted(r[2] for r in env.records if r[1] == "run" and r[3] == "event" and r[6] == ty)
+                for tp in topics:
+                    runs[tp] = sorted(r[2] for r in env.records if r[1] == "run" and r[3] == "mqtt" and r[8] == tp)
+                for hk in hooks:
+                    runs[hk] = sorted(r[2] for r in env.records if r[1] == "run" and r[3] == "webhook" and r[9] == hk)
                 drain()
                 # call every declared service that exists: which generation answers?
                 for n in svcs:
@@ -664,11 +754,11 @@ def _run_one(payload):
                         runs[n] += sorted(r[2] for r in env.records if r[1] == "run" and r[3] == "service" and r[7] == n)
                         drain()
             else:
-                runs = {p: [] for p in ENTS + EVS + svcs}
+                runs = {p: [] for p in ENTS + EVS + svcs + topics + hooks}
             tasks = [t for t in asyncio.all_tasks() if not t.done() and
                      any(s in repr(t.get_coro()) for s in ("trigger_watch", "_cycle"))]
             errs = [l[2][-160:] for l in env.log if l[1] == "ERROR"]
-            obs.append({"st": st, "ev": ev, "bus": bus, "svc": svc, "cnt": cnt, "own": own, "log": log, "runs": runs,
+            obs.append({"st": st, "ev": ev, "bus": bus, "mq": mq, "mqs": mqs, "wh": wh, "whs": whs, "stray": stray, "svc": svc, "cnt": cnt, "own": own, "log": log, "runs": runs,
                         "orders": orders,
                         "trigger_tasks": len(tasks), "err": err, "errors": errs[:3]})
         # every run that started must finish, also those of functions deleted / unloaded meanwhile
@@ -680,7 +770,8 @@ def _run_one(payload):
         return obs
 
     try:
-        return run_ha({}, bool(payload["legacy"]), body)
+        with patch("homeassistant.components.mqtt.async_subscribe", fake_subscribe):
+            return run_ha({}, bool(payload["legacy"]), body)
     except Exception as e:  # pragma: no cover
         import traceback
         return [{"harness_error": type(e).__name__ + ": " + str(e)[:300] + traceback.format_exc()[-600:]}]
@@ -743,10 +834,42 @@ def order_for(names, orders):
     return list(names)
 
 
+def rebind_kinds(payload):
+    """per op index: what `dst = src` does - "rebind" (src holds a function), "kill" (src holds the non-function a
+    previous `name = 5` left there: dst loses its function) or "noop" (src is unbound: NameError)"""
+    fn = {f: set() for f in FILES}
+    nf = {f: set() for f in FILES}
+    out = {}
+    for idx, o in enumerate(payload["ops"]):
+        k, f = o["op"], o.get("file", "t")
+        if k == "define":
+            fn[f].add(o["name"]); nf[f].discard(o["name"])
+        elif k == "del":
+            fn[f].discard(o["name"]); nf[f].discard(o["name"])
+        elif k == "assign":
+            fn[f].discard(o["name"]); nf[f].add(o["name"])
+        elif k == "rebind":
+            if o["src"] in fn[f]:
+                out[idx] = "rebind"
+                fn[f].add(o["dst"]); nf[f].discard(o["dst"])
+            elif o["src"] in nf[f]:
+                out[idx] = "kill"
+                fn[f].discard(o["dst"]); nf[f].add(o["dst"])
+            else:
+                out[idx] = "noop"
+        elif k in ("reloadfile", "deletefile", "commentfile", "jend"):
+            fn[f].clear(); nf[f].clear()
+        elif k == "unloadall":
+            for ff in FILES:
+                fn[ff].clear(); nf[ff].clear()
+    return out
+
+
 def model_ops(payload):
     """the model's op list; the name lists are given in the iteration order observed on the implementation"""
     obs = payload.get("_obs") or []
     ops = []
+    rk = rebind_kinds(payload)
     for idx, o in enumerate(payload["ops"]):
         if idx >= len(obs):
             break
@@ -761,12 +884,15 @@ def model_ops(payload):
             orders = obs[idx].get("orders", []) if isinstance(obs[idx], dict) else []
             # both subsystems keep one queue per @state_trigger (legacy: one TrigInfo per decorator round)
             states = [[var_sx(n) for n in order_for(s, orders)] for s in o["states"]]
-            ops.append(["define", ctx, o["name"], states, o["events"], ["pyscript." + s for s in o["services"]],
-                        o["su"], o["sd"]])
+            ops.append(["define", ctx, o["name"], states, o["events"], o.get("mqtts", []), o.get("hooks", []),
+                        ["pyscript." + s for s in o["services"]], o["su"], o["sd"]])
         elif k == "del":
             ops.append(["del", ctx, o["name"]])
         elif k == "rebind":
-            ops.append(["rebind", ctx, o["dst"], o["src"]])
+            if rk.get(idx) == "kill":
+                ops.append(["del", ctx, o["dst"]])       # `dst = src` where src holds a non-function
+            else:
+                ops.append(["rebind", ctx, o["dst"], o["src"]])
         elif k == "assign":
             ops.append(["del", ctx, o["name"]])          # the name is bound to a non-function: the reference is gone
         elif k == "setup":
@@ -790,11 +916,17 @@ def model_ops(payload):
     return ops
 
 
-def block(st, ev, bus, cnt, own, log, runs, svcs):
+def block(st, ev, bus, chan, cnt, own, log, runs, svcs, topics, hooks):
     def j(d):
         return "(" + " ".join(sorted(f"{k}:{v}" for k, v in d.items())) + ")"
     r = " ".join(f"{p}:{','.join(str(x) for x in runs.get(p, []))}" for p in ENTS + EVS + svcs)
-    return (f"st={j(st)} ev={j(ev)} bus={j(bus)} svc={j(cnt)} own={j(own)} "
+    # a function with two @mqtt_trigger on one topic runs twice per message: the model column names each generation
+    # once, the multiplicity is checked by the oracle
+    r2 = " ".join(f"{p}:{','.join(str(x) for x in sorted(set(runs.get(p, []))))}" for p in topics + hooks)
+    r = (r + " " + r2).strip() if r2 else r
+    mq, mqs, wh, whs = chan
+    return (f"st={j(st)} ev={j(ev)} bus={j(bus)} mq={j(mq)} mqs={j(mqs)} wh={j(wh)} whs={j(whs)} "
+            f"svc={j(cnt)} own={j(own)} "
             f"log=({' '.join(sorted(f'{a}:{b}' for a, b in log))}) runs=({r})")
 
 
@@ -810,12 +942,13 @@ def finish_case(c):
         if o.get("err"):
             blocks.append("raise:" + o["err"])
         else:
-            blocks.append(block(o["st"], o["ev"], o["bus"], o["cnt"], o["own"], [tuple(x) for x in o["log"]], o["runs"],
-                                svc_names(c.payload)))
+            blocks.append(block(o["st"], o["ev"], o["bus"], (o["mq"], o["mqs"], o["wh"], o["whs"]), o["cnt"], o["own"],
+                                [tuple(x) for x in o["log"]], o["runs"], svc_names(c.payload), topics_of(c.payload),
+                                hooks_of(c.payload)))
     c.impl = " | ".join(blocks)
     sub = "legacy" if c.payload["legacy"] else "new"
     c.line = "C09 " + common.sx(["run", DEL_CONTINUES, sub, model_ops(c.payload), [e.split(".") for e in ENTS], EVS,
-                                     svc_names(c.payload)])
+                                     svc_names(c.payload), topics_of(c.payload), hooks_of(c.payload)])
     c.nontrivial = any(o["op"] in ("del", "drop", "reloadfile", "deletefile", "unloadall") for o in c.payload["ops"])
 
 
@@ -840,6 +973,7 @@ def oracle(payload):
     out = []
     legacy = payload["legacy"]
     svcs = svc_names(payload)
+    topics, hooks = topics_of(payload), hooks_of(payload)
     multi = len(files_used(payload)) > 1
 
     def active_set():
@@ -847,7 +981,8 @@ def oracle(payload):
         for f in FILES:
             a |= set(binds[f].values()) | set(slots[f].values())
         return a | set(xslots.values())
-    for o in payload["ops"]:
+    rk = rebind_kinds(payload)
+    for opidx, o in enumerate(payload["ops"]):
         k = o["op"]
         f = o.get("file", "t")
         log = []
@@ -867,7 +1002,9 @@ def oracle(payload):
         elif k == "del":
             binds[f].pop(o["name"], None)
         elif k == "rebind":
-            if o["src"] in binds[f]:
+            if rk.get(opidx) == "kill":
+                binds[f].pop(o["dst"], None)
+            elif o["src"] in binds[f]:
                 binds[f][o["dst"]] = binds[f][o["src"]]
         elif k == "assign":
             binds[f].pop(o["name"], None)
@@ -897,8 +1034,9 @@ def oracle(payload):
             if gens[g]["sd"] and g not in refused:
                 log.append(("shutdown", g))
         st, ev, bus = {}, {}, {}
+        mq, mqs, wh, whs = {}, {}, {}, {}
         cnt, own = {}, {}
-        runs = {p: [] for p in ENTS + EVS + svcs}
+        runs = {p: [] for p in ENTS + EVS + svcs + topics + hooks}
         for g in sorted(active - refused):
             d = gens[g]
             for s in d["states"]:       # one queue per @state_trigger in both subsystems
@@ -914,6 +1052,16 @@ def oracle(payload):
                     bus[ty] = 1
                 else:
                     bus[ty] = bus.get(ty, 0) + 1
+            # MQTT / webhook: legacy keeps one queue per decorator in Mqtt.notify / Webhook.notify and ONE Home Assistant
+            # subscription / registration per key in use; new: one subscription / registration per decorator.  Every
+            # decorator naming the key runs the function once per message.
+            for key, tab, has in [(t, mq, mqs) for t in d.get("mqtts", [])] + [(h, wh, whs) for h in d.get("hooks", [])]:
+                runs[key].append(g)
+                if legacy:
+                    tab[key] = tab.get(key, 0) + 1
+                    has[key] = 1
+                else:
+                    has[key] = has.get(key, 0) + 1
             for n in d["services"]:
                 full = "pyscript." + n
                 cnt[full] = cnt.get(full, 0) + 1
@@ -922,7 +1070,7 @@ def oracle(payload):
         for full in runs:
             if full in svcs and len(runs[full]) > 1:
                 runs[full] = [max(runs[full])]   # redefinition inside one context: the latest definition answers
-        out.append({"st": st, "ev": ev, "bus": bus, "svc": sorted(cnt), "cnt": cnt, "own": own, "log": log, "runs": runs,
+        out.append({"st": st, "ev": ev, "bus": bus, "mq": mq, "mqs": mqs, "wh": wh, "whs": whs, "svc": sorted(cnt), "cnt": cnt, "own": own, "log": log, "runs": runs,
                     "final": k == "unloadall" or (k in ("deletefile", "commentfile") and not multi),
                     "active": sorted(active),
                     "unloaded": k == "unloadall"})
@@ -944,7 +1092,7 @@ def deviations(payload):
             devs.append(("raise", f"op {idx}: {o['err']}"))
             continue
         inactive_dups = bool(dup_gens - set(x["active"]))
-        for p in ENTS + EVS + svc_names(payload):
+        for p in ENTS + EVS + svc_names(payload) + topics_of(payload) + hooks_of(payload):
             got, want = o["runs"].get(p, []), ([] if x["unloaded"] else x["runs"][p])
             for g in got:
                 if g not in want:
@@ -952,8 +1100,9 @@ def deviations(payload):
             for g in want:
                 if g not in got:
                     devs.append(("active-not-run", f"op {idx}: occurrence of {p} did not run the referenced generation {g}"))
-                elif got.count(g) != 1:
-                    devs.append(("ran-twice", f"op {idx}: occurrence of {p} ran generation {g} {got.count(g)} times"))
+                elif got.count(g) != want.count(g):
+                    devs.append(("ran-twice", f"op {idx}: occurrence of {p} ran generation {g} {got.count(g)} times, "
+                                 f"{want.count(g)} of its decorators name it"))
         for ent in sorted(set(o["st"]) | set(x["st"])):
             a, b = o["st"].get(ent, 0), x["st"].get(ent, 0)
             if a > b:
@@ -963,7 +1112,9 @@ def deviations(payload):
                              f"op {idx}: {ent} has {a} subscribed queues, the referenced functions account for {b}{hint}"))
             elif a < b:
                 devs.append(("missing-subscription", f"op {idx}: {ent} has {a} subscribed queues, expected {b}"))
-        for what in ("ev", "bus"):
+        if o.get("stray"):
+            devs.append(("leak:notify-remove", f"op {idx}: notify_remove keeps callbacks for {o['stray']} without a notify entry"))
+        for what in ("ev", "bus", "mq", "mqs", "wh", "whs"):
             for ty in sorted(set(o[what]) | set(x[what])):
                 a, b = o[what].get(ty, 0), x[what].get(ty, 0)
                 if a > b:
@@ -996,7 +1147,9 @@ def deviations(payload):
 
 
 ORDER = ["harness", "raise", "ran-inactive", "active-not-run", "ran-twice", "missing-subscription", "leak:state-subscription",
-         "leak:ev-listener", "leak:bus-listener", "missing:ev-listener", "missing:bus-listener", "leak:service",
+         "leak:ev-listener", "leak:bus-listener", "leak:mq-listener", "leak:mqs-listener", "leak:wh-listener",
+         "leak:whs-listener", "leak:notify-remove", "missing:ev-listener", "missing:bus-listener", "missing:mq-listener",
+         "missing:mqs-listener", "missing:wh-listener", "missing:whs-listener", "leak:service",
          "missing:service", "leak:service-count", "missing:service-count", "service-owner", "startup-shutdown",
          "leak:trigger-task", "run-not-finished"]
 
